@@ -111,7 +111,9 @@ theorem safe_insertBlock (cont : St → Block → St) (hc : ∀ f, KeepSafe (fun
   simp only
   split
   · exact a
-  · have b1 := safe_insertB b _ a
+  · rename_i v _
+    have a' : Safe ((insertA s b).setMem { (insertA s b).mem with verified := v }) := a
+    have b1 := safe_insertB b _ a'
     split
     · rename_i f _
       exact hc f _ b1
